@@ -19,7 +19,8 @@ def vq_family(c, tier, seed, modes, profile="dev"):
         out = os.path.join(WORK, c.pid, f"vq-{mode}.ndjson")
         idx = run_harness("vq", out, seed, tier, [mode], profile=profile)
         if mode == "wrap":
-            v = validate_traces("VirtQueueTrace", "VirtQueueTrace.cfg", out, idx, max_events=10**9, parallel=6, xmx="6g", timeout=3000)
+            # one shard per (long) scenario, validated side by side
+            v = validate_traces("VirtQueueTrace", "VirtQueueTrace.cfg", out, idx, max_events=1, parallel=6, xmx="6g", timeout=3000)
         else:
             v = validate_traces("VirtQueueTrace", "VirtQueueTrace.cfg", out, idx)
         c.add_validation(v, f"vq/{mode}")
